@@ -29,8 +29,11 @@ SITE_GRAMMAR = "[decorator, clause, failure-kind, detail]"
 
 SPECS = [None, "meter", "U:second", "=A", "=B", "=A*B", "=A**2"]
 VALUES = ["2 meter", "300 centimeter", "5 second", "7"]
-UNITDIM = {"meter": "L", "centimeter": "L", "second": "T"}
-FAC = {"meter": Fraction(1), "centimeter": Fraction(1, 100), "second": Fraction(1)}
+# 1-2 parameters: additionally the dimensionless spec and a SCALED dimensionless value (50 % is the number 0.5)
+SPECS_SMALL = SPECS + ["", "U:"]
+VALUES_SMALL = VALUES + ["50 percent"]
+UNITDIM = {"meter": "L", "centimeter": "L", "second": "T", "percent": None}
+FAC = {"meter": Fraction(1), "centimeter": Fraction(1, 100), "second": Fraction(1), "percent": Fraction(1, 100)}
 
 
 def call(fn):
@@ -62,6 +65,8 @@ def dims(units):
     d = {}
     for u, e in units.items():
         k = UNITDIM[u]
+        if k is None:
+            continue
         d[k] = d.get(k, 0) + e
     return {k: e for k, e in d.items() if e}
 
@@ -139,9 +144,10 @@ def model_wraps(specs, bound, strict):
                 recv[i] = ("same", "7")
             else:
                 vu = val_units(bound[i])
-                if dims(vu) != dims({p: 1}):
+                tu = {p: 1} if p else {}
+                if dims(vu) != dims(tu):
                     return ("exc", "DimensionalityError")
-                recv[i] = ("mag", Fraction(val_mag(bound[i])) * factor(vu) / factor({p: 1}))
+                recv[i] = ("mag", Fraction(val_mag(bound[i])) * factor(vu) / factor(tu))
         elif k == "none":
             recv[i] = ("same", bound[i])
     return ("ok", recv, named)
@@ -190,14 +196,14 @@ def same_received(ureg, got, exp):
 
 def run_wraps(acc, n, block, nblocks, tier):
     ureg = regs.default("Fraction")
-    alphabet = SPECS if n <= 3 else [None, "meter", "=A", "=A**2", "=B"]
+    alphabet = SPECS_SMALL if n <= 2 else (SPECS if n <= 3 else [None, "meter", "=A", "=A**2", "=B"])
     spec_tuples = [t for t in itertools.product(alphabet, repeat=n) if classify(t) is not None]
     acc.dim(f"spec tuples n={n}", len(spec_tuples))
     default_value = "300 centimeter"
     for si, specs in enumerate(spec_tuples):
         if si % nblocks != block:
             continue
-        real_specs = tuple(ureg.Unit(s[2:]) if isinstance(s, str) and s.startswith("U:") else s for s in specs)
+        real_specs = tuple((ureg.Unit(s[2:]) if s[2:] else ureg.dimensionless) if isinstance(s, str) and s.startswith("U:") else s for s in specs)
         for ndef in range(n + 1):
             record = []
             for i in range(n):
@@ -212,7 +218,7 @@ def run_wraps(acc, n, block, nblocks, tier):
                 forms = call_forms(n, ndef)
                 for npos, kwi, omitted in forms:
                     free = [i for i in range(n) if i not in omitted]
-                    vals_alpha = VALUES if n <= 2 else ["2 meter", "300 centimeter", "5 second", "7"]
+                    vals_alpha = VALUES_SMALL if n <= 2 else VALUES
                     for combo in itertools.product(vals_alpha, repeat=len(free)):
                         bound = [default_value] * n
                         for i, v in zip(free, combo):
@@ -254,7 +260,7 @@ def run_returns(acc):
     ureg = regs.default("Fraction")
     spec_tuples = [t for t in itertools.product(SPECS, repeat=2) if classify(t) is not None]
     for specs in spec_tuples:
-        real_specs = tuple(ureg.Unit(s[2:]) if isinstance(s, str) and s.startswith("U:") else s for s in specs)
+        real_specs = tuple((ureg.Unit(s[2:]) if s[2:] else ureg.dimensionless) if isinstance(s, str) and s.startswith("U:") else s for s in specs)
         hasA = any(k == "def" and p == "A" for k, p in classify(specs))
         for ret in RET_SPECS:
             uses_ref = (ret == "=A") or (isinstance(ret, (list, tuple)) and "=A" in ret)
